@@ -6,7 +6,8 @@ from ..core import Case, hx
 ID = "C13"
 NEEDS_BINARY = True
 VALUES = ["|", "&", ";", "<", ">", "a>b", "<f", "2>&1", ";x", "#c", ">>", "a|b", "&&", "||", " ", "x y", "*", "'", '"', "\\", "$Y", "${Y}",
-          "`id`", "$(id)", "~", "{a,b}", "", "-n", "a b>c", "<<<", "1>&2", "a;b", "é|", "2>e", "&x", "x&", "(", ")", "a\nb", "A=1"]
+          "`id`", "$(id)", "~", "{a,b}", "", "-n", "a b>c", "<<<", "1>&2", "a;b", "é|", "2>e", "&x", "x&", "(", ")", "a\nb", "A=1",
+          "<<<a>b", "<f>g"]          # an operand-shaped value holding a second operator (seed C13-4 cut such operands at the `>`)
 FORMS = {"v": "$%s", "b": "${%s}", "p": "$(%s)", "q": "`%s`"}
 RULE = ("values / outputs containing each operator character alone and embedded (40 values) delivered through $NAME, ${NAME}, $(...), "
         "backquotes, unquoted and double-quoted, at every argument position of a 1..3-argument command: line_to_cmds + "
